@@ -621,17 +621,15 @@ Definition codec_body (scheme width:Z) (big:option bool) (sp:span) (argv:list va
         match a with
         | VInt n =>
             if width <? 0 then raise c_value sp else
-            let lo := if signed then - (256 ^ width / 2) else 0 in
-            let hi := if signed then 256 ^ width / 2 else 256 ^ width in
-            if (width =? 0) then (if (n =? 0) || (signed && (n =? -1)) then Ret (VBytes []) else raise c_value sp)   (* width 0: CPython accepts 0 and, signed, -1; outside the property *)
-            else if (lo <=? n) && (n <? hi) then
+            (* representable: 0 <= n < 256^w, resp. -256^w <= 2n < 256^w (so that no bytes hold 0 only - the repaired width-0 case) *)
+            if (if signed then (- 256 ^ width <=? 2 * n) && (2 * n <? 256 ^ width) else (0 <=? n) && (n <? 256 ^ width)) then
               let bs := le_bytes (Z.to_nat width) (n mod 256 ^ width) in Ret (VBytes (if bigend then rev bs else bs))
             else raise c_value sp
         | VBytes bs =>
             let l := if bigend then rev bs else bs in
             let v := le_value l in
             let w := Z.of_nat (length bs) in
-            Ret (VInt (if signed && negb (w =? 0) && (256 ^ w / 2 <=? v) then v - 256 ^ w else v))
+            Ret (VInt (if signed && (256 ^ w <=? 2 * v) then v - 256 ^ w else v))
         | _ => raise c_type sp end
       else if scheme =? 0 then
         (* strings <-> byte strings: UTF-8 (width 1, no byte order), UTF-16 / UTF-32 (width 2 / 4; without a byte order: a byte-order mark and little-endian
